@@ -191,6 +191,17 @@ func profileFor(prop string) Profile {
 	case "C10":
 		p.Cloud = 4
 		p.CloudErr, p.Relist, p.AdminRelease = true, true, true
+	case "C02":
+		p.Ops = [2]int{15, 50}
+	case "C03":
+		p.Relist, p.AdminRelease = true, true
+		p.Ops = [2]int{15, 50}
+	case "C07":
+		p.PoolAPI, p.Pools = true, true
+		p.Kinds = []string{"dp", "dp", "dp", "sts"}
+		p.Policies = []string{"", "immutable", "never", "never"}
+	case "C09":
+		p.Reload, p.Reserve = true, true
 	case "C19":
 		p.Faults, p.Crash, p.Relist, p.Reload, p.AdminRelease, p.AdminList, p.PoolAPI, p.Reserve, p.Ranges, p.Collect = true, false, true, true, true, true, true, true, true, true
 		p.Cloud = 2
@@ -249,6 +260,8 @@ type World struct {
 	states  []string
 	opGap, lastOpStep, lastAdvStep int
 	unsched map[string]bool
+	M       *modelState
+	taskSeq int
 }
 
 func (w *World) fail(oracle, key, format string, a ...interface{}) {
@@ -263,7 +276,7 @@ func (w *World) fail(oracle, key, format string, a ...interface{}) {
 
 func newWorld(s *core.Sim, prop, tier string) *World {
 	w := &World{S: s, C: s.C, prop: prop, tier: tier, prof: profileFor(prop), pods: map[string]*PodInfo{}, podByUID: map[string]*PodInfo{},
-		gone: map[string]bool{}, busy: map[string]*core.Task{}, schedBusy: map[string]*core.Task{}, cloud: map[string]string{}, memdump: map[string][]memEntry{}, unsched: map[string]bool{}}
+		gone: map[string]bool{}, busy: map[string]*core.Task{}, schedBusy: map[string]*core.Task{}, cloud: map[string]string{}, memdump: map[string][]memEntry{}, unsched: map[string]bool{}, M: newModel()}
 	w.K = simkube.New(s)
 	w.K.OnMutate = w.onMutate
 	s.OnPanic = w.onPanic
@@ -367,7 +380,16 @@ func (w *World) onMutate(m *simkube.Mutation) {
 		w.onPodMutate(m)
 	case "floatingips":
 		w.onFipMutate(m)
+	case "pools":
+		w.onPoolMutate(m)
 	}
+}
+
+// taskMeta is attached to tasks the world spawns (scheduler-side only).
+type taskMeta struct {
+	start    int
+	confRead int // configuration version the task last read from the configmap (-1 = none)
+	podUID   string
 }
 
 func (w *World) onPodMutate(m *simkube.Mutation) {
@@ -470,6 +492,17 @@ func (w *World) Handle(t *core.Task, r *core.Req) core.Resp {
 			}
 		}
 		resp := w.K.Handle(t, r)
+		if r.Op == "api.get" && len(r.A) > 0 && r.A[0] == "configmaps" && resp.Code == 0 && t != nil {
+			// remember which configuration version this task read
+			if tm, ok := t.Data.(*taskMeta); ok && tm != nil {
+				tm.confRead = len(w.confVers) - 1
+			} else {
+				t.Data = &taskMeta{start: w.S.Steps, confRead: len(w.confVers) - 1}
+				if t.Tag == "" {
+					t.Tag = "periodic-reload"
+				}
+			}
+		}
 		if w.galaxyTask(t) && w.lostNow(r) {
 			w.S.Stat("fault.api.lost-reply")
 			w.S.Sig("F:lost:" + r.Op)
@@ -696,6 +729,16 @@ func (w *World) deliver(kind string) {
 		return
 	}
 	w.S.Stat("informer.delivered")
+	if kind == "pools" {
+		name := ev.Key[strings.Index(ev.Key, "/")+1:]
+		if ev.New == nil {
+			w.M.poolView[name] = append(w.M.poolView[name], sizePoint{w.S.Steps, -1})
+		} else {
+			var pj poolJSON
+			_ = json.Unmarshal(ev.New.JSON, &pj)
+			w.M.poolView[name] = append(w.M.poolView[name], sizePoint{w.S.Steps, pj.Size})
+		}
+	}
 	if ev.Tombstone {
 		w.S.Stat("probe.tombstone-delivery")
 	}
@@ -780,8 +823,10 @@ func taskNames(ts []*core.Task) string {
 }
 
 func (w *World) spawnGalaxy(name, tag string, fn func()) *core.Task {
-	t := w.S.Spawn(name, w.proc, fn)
+	w.taskSeq++
+	t := w.S.Spawn(fmt.Sprintf("%s~%d", name, w.taskSeq), w.proc, fn)
 	t.Tag = tag
+	t.Data = &taskMeta{start: w.S.Steps, confRead: -1}
 	w.inflight = append(w.inflight, t)
 	return t
 }
